@@ -14,22 +14,35 @@ MANIFEST = dict(
     text="Theorems request_view_equiv (headers mapping, client, body of the WSGI view of the CGI rendering = those of the ASGI view "
          "of the scope rendering of one abstract request, for distinct header names; host_view_equiv: HTTP_HOST of the environ = the "
          "value the ASGI Hosts' header loop ends with), response_equiv (every response recipe yields the same status, the same "
-         "header list and the same body bytes on both interfaces; the event-stream response differs only by the Connection header) "
-         "and app_equiv (by induction on an application tree of any depth: views that answer with response recipes, Router, Subpaths, "
-         "Hosts over any fullmatch oracle; for every abstract request the run built from the WSGI model functions of C08/C09/C04 and "
-         "the run built from the ASGI ones both answer with a response of the same status, body and header list, modulo the "
-         "event stream's Connection header; the 404 fallbacks included) about the Gallina models of both request classes, all "
-         "response classes and the three dispatchers. The models are compared with both live stacks, trees included; compositions "
-         "that have no model here (derived accessors, JSON/forms/uploads, Files/Pages incl. 304, decorators) are run differentially "
-         "on both stacks.",
+         "header list and the same body bytes on both interfaces; the event-stream response differs only by the Connection header), "
+         "static_equiv (for EVERY file system, configuration, path and header value the complete answer of baize.wsgi.Files / Pages "
+         "equals that of baize.asgi.Files / Pages: same status, same header list in the same order, same body bytes, or the same "
+         "HTTPException 404 / 400; nothing else happens), static_serves_file (on either interface a 200 / 206 body is exactly the "
+         "content, resp. the requested slices, of the regular file C07's lexical resolution names inside the directory; 304 has "
+         "Cache-Control, Vary, Content-Length: 0 and no body and is given exactly when C14's decision says so; a rejected Range "
+         "carries no file byte; everything else is HTTPException(404) or the slash redirect of Pages / HTTPException(400)) "
+         "and app_equiv / app_equiv_below (by induction on an application tree of any depth: views that answer with response recipes, "
+         "Router, Subpaths, Hosts over any fullmatch oracle, Files / Pages on any file system; for every abstract request the run "
+         "built from the WSGI model functions of C08/C09/C07/C14/C02/C18/C04 and the run built from the ASGI ones both answer with a "
+         "response of the same status, body and header list, modulo the event stream's Connection header — or, only where Files / "
+         "Pages take part, both raise the same HTTPException; the 404 fallbacks included) about the Gallina models of both request "
+         "classes, all response classes, the three dispatchers and the two static-file applications. The models are compared with "
+         "both live stacks, trees and static files included; compositions that have no model here (derived accessors, JSON/forms/"
+         "uploads, decorators) are run differentially on both stacks.",
     note="Modelled, not verified: the gateway's rendering of the abstract request (CGI naming, lower-cased scope names, the same text "
-         "for the root path and the path on both interfaces); header names are distinct ASCII tokens without '_' (how a gateway "
-         "joins repeated request headers is not baize's behaviour); app_equiv assumes of every view that it answers with recipes "
-         "response_equiv speaks about (no raising producer, no developer headers on an event stream, file chunk size >= 1); Files "
-         "and Pages are not constructors of the tree: they stay differential cases (decided by direct comparison of the two "
-         "implementations), their theorems being those of C07.",
+         "for the root path and the path on both interfaces: ASCII — a WSGI gateway presents a non-ASCII path as different text, "
+         "C07's known finding wsgi-non-ascii-not-found); header names are distinct ASCII tokens without '_' (how a gateway "
+         "joins repeated request headers is not baize's behaviour; URL(scope=) reads the first Host header, the environ holds the "
+         "last); app_equiv assumes of every view that it answers with recipes response_equiv speaks about (no raising producer, no "
+         "developer headers on an event stream, file chunk size >= 1) and of every Files / Pages that its directory is what "
+         "normalize_dir_path returns (absolute, normalised, not '/'), handle_404 = None, the scheme one of http/https/ws/wss. "
+         "Static files: the file system is a function of the path text, constant during a request, st_size = length of the content; "
+         "inputs as in C02/C14: float st_mtime, SHA-1, int(float), formatdate, parsedate_to_datetime, guess_type, the quoted "
+         "download name, the random boundary; urlsplit / urlunsplit as transcribed in C18/Model.v, strict UTF-8 decoding and "
+         "iri_to_uri's quote as transcribed in C04/Static.v (validated by the redirect cases); zero-copy send is C02's.",
     technique="Coq proof (equality of two models on the rendered request; per-recipe equality of two renderings; induction on the "
-              "application tree over the dispatch theorems of C08/C09) + executable model/implementation correspondence + differential runs",
+              "application tree over the dispatch theorems of C08/C09; static leaves composed from the models of C07/C14/C02/C18 "
+              "and proved from their theorems) + executable model/implementation correspondence + differential runs",
     ref="5/C04")
 RULE = ("cases: abstract requests (methods, 0-4 headers with mixed case incl. content-type/length, cookies, accept, queries, clients, "
         "bodies split into 0-3 chunks incl. empty ones) rendered as environ and as scope+messages; every response recipe of C05's "
@@ -37,15 +50,28 @@ RULE = ("cases: abstract requests (methods, 0-4 headers with mixed case incl. co
         "programs with views that write method, root path, path, typed path parameters and header mapping into the body; a 4-level "
         "nesting of Hosts, Subpaths and Router in both orders x 12 paths x 2 root paths x 3 hosts; every recipe below Hosts > "
         "Subpaths > Router; random trees of depth 1-3 and width 1-3 over pools of route texts, prefixes and host patterns with paths "
-        "and Host values aimed down the tree and perturbed); differential programs (derived accessors, json/form/multipart incl. "
+        "and Host values aimed down the tree and perturbed); static leaves against the model on both interfaces, header order "
+        "included: the real Files / Pages as root application and below Router / Subpaths / Hosts / nested dispatchers on generated "
+        "directory trees with fixed nanosecond mtime / ctime (39 paths: files, directories with and without slash and index page, "
+        "x.html fallback, a directory called d.html, fifo, '..', empty and relative paths; If-None-Match plain / weak / list / '*' / "
+        "malformed, If-Modified-Since before / at / after mtime and ctime and garbage, both headers in both orders; Range single / "
+        "several / unsatisfiable / malformed, If-Range ETag / weak / date / stale; GET / HEAD / POST; the Pages redirect over 9 "
+        "query strings incl. non-ASCII and invalid UTF-8, 12 Host forms incl. IPv6 and unclosed bracket, schemes, server addresses, "
+        "root paths with a space; four cacheability / max_age settings; files of 0 bytes, one chunk, one chunk + 1, two chunks); "
+        "differential programs (derived accessors, json/form/multipart incl. "
         "malformed, close() after a failed form, Router/Subpaths/Hosts tables, Files/Pages on a directory tree incl. conditional "
         "and range requests, request_response and decorator shortcuts); non-trivial = every case (each compares two implementations)")
 TRUSTED = ["the harness's rendering of an abstract request into an environ (CGI naming) and into a scope + messages",
            "Python's re.fullmatch as the oracle the Hosts model is parameterised by (answers computed by the harness)",
-           "the Unicode classes of non-ASCII characters in route texts, as the interpreter reports them (C08)"]
+           "the Unicode classes of non-ASCII characters in route texts, as the interpreter reports them (C08)",
+           "static leaves: the description of the generated directory tree handed to the model (os.stat kinds, contents, the fixed "
+           "timestamps of c14's virtual os.stat) and the standard-library values computed by the harness for it (SHA-1 of "
+           "'<float mtime>-<size>', int(float), formatdate, parsedate_to_datetime, guess_type, quote of the download name)"]
 ASSUMPTIONS = ["request header names are distinct ASCII tokens without underscore", "the peer address, when present, has a non-empty host",
                "application trees: every Route / Subpaths / Hosts of the tree can be constructed; root path and path are ASCII (a view "
-               "writes them into a body), the same text on both interfaces"]
+               "writes them into a body, Files / Pages look them up), the same text on both interfaces",
+               "static leaves: the directory is a normalised absolute path other than '/'; handle_404 is None; the scheme is http, "
+               "https, ws or wss; cacheability without CR / LF / NUL; no symbolic links; the tree does not change during a request"]
 EXHAUSTIVE = {"quick": False, "thorough": False}
 
 HEADER_POOL = [["Host", "example.org"], ["content-type", "application/json; charset=utf-8"], ["Content-Length", "12"],
@@ -457,6 +483,7 @@ STATIC_LAYOUTS = {
              "sub/index.html": b"sub", "sub/inner.html": b"<i>inner</i>", "noidx/a.txt": b"na", "d.html/index.html": b"dh",
              "both.html": b"file", "both/index.html": b"dir", "deep/d1/d2/f.txt": b"deep", "fifo": None},
     "noindex": {"a.txt": b"abc", "sub/x.html": b"x"},
+    "tiny": {"a.txt": b"xy", "s": "DIR"},       # small enough for the kernel cross-check of the extraction
     "chunk": {"one.dat": _pattern(CHUNK), "index.html": b"i"},
     "chunk1": {"more.dat": _pattern(CHUNK + 1), "index.html": b"i"},
     "chunk2": {"two.dat": _pattern(2 * CHUNK), "index.html": b"i"},
@@ -475,7 +502,7 @@ def static_world(layout):
     w = _static.get(key)
     if w is not None:
         return w
-    root = os.path.join(util.tmpdir(), "c04static-" + layout, "root")
+    root = os.path.join(util.tmpdir(), "w" + layout)
     files = STATIC_LAYOUTS[layout]
     os.makedirs(root, exist_ok=True)
     nodes = {root: [1, 0]}
@@ -491,6 +518,10 @@ def static_world(layout):
             if not os.path.exists(p):
                 os.mkfifo(p)
             nodes[p] = [2, 0]
+            continue
+        if data == "DIR":
+            os.makedirs(p, exist_ok=True)
+            nodes[p] = [1, 0]
             continue
         if not os.path.exists(p):
             with open(p, "wb") as f:
@@ -536,7 +567,7 @@ STATIC_HOSTS = [None, "example.com", "h:8080", "[::1]:80", "[::1", "EXAMPLE.com"
 STATIC_QUERIES = [b"", b"a=1&b=2", b"\xc3\xa9=1", b"\xff", b"x=%20y", b"a b", b"q=\xf0\x9f\x98\x80", b"\xed\xa0\x80", b"\xc0\xaf"]
 STATIC_PATHS = ["/a.txt", "/", "/index.html", "/page", "/page.html", "/sub", "/sub/", "/sub/inner", "/sub/index.html", "/missing",
                 "/missing/", "/noidx", "/noidx/", "/d.html", "/d.html/", "/empty.txt", "/bin.dat", "/noext", "/we ird.bin",
-                "/both", "/both/", "/both.html", "/deep/d1/d2/f.txt", "/deep/d1", "/fifo", "/../root/a.txt", "/../a.txt", "/a.txt/",
+                "/both", "/both/", "/both.html", "/deep/d1/d2/f.txt", "/deep/d1", "/fifo", "/../wmain/a.txt", "/../a.txt", "/a.txt/",
                 "/a.txt/x", "/./a.txt", "//a.txt", "/sub/../a.txt", "", "a.txt", "/x", "/x.html", "/index", "/sub/index", "/.."]
 
 
@@ -638,6 +669,9 @@ def static_cases(tier, rng):
                     yield "static-config", static_case(static_leaf(kind, cache, age), path, headers=hs)
         for path in ("/", "/a.txt", "/sub", "/sub/", "/sub/x", "/index.html"):
             yield "static-layout", static_case(static_leaf(kind), path, layout="noindex")
+        for path in ("/a.txt", "/s", "/s/", "/a", "/b", ""):
+            for hs in ([], [["Range", "bytes=1-"]], [["If-None-Match", "*"]], [["Host", "h"]]):
+                yield "static-tiny", static_case(static_leaf(kind, "public", 1), path, layout="tiny", headers=hs, method=rng.choice(["GET", "HEAD"]))
     # (e) files of exactly one chunk, one chunk + 1 byte and two chunks: whole, HEAD, ranges across the chunk border
     big = [("chunk", "one.dat", CHUNK), ("chunk1", "more.dat", CHUNK + 1), ("chunk2", "two.dat", 2 * CHUNK)]
     for layout, name, size in (big if tier == "thorough" else big[:2]):
@@ -1061,6 +1095,7 @@ def oracle(case, obs):
 
 
 def nontrivial(case, obs):
+    # every case compares two implementations (static leaves: the real Files / Pages on both interfaces, and the model)
     return True
 
 
